@@ -313,6 +313,7 @@ parser! {
     rule time_of_day() -> TimeOfDayLiteral = tok(TokenType::TimeOfDay) tok(TokenType::Hash) d:daytime() { TimeOfDayLiteral::new(d) }
     rule daytime() -> Time = h:day_hour() tok(TokenType::Colon) m:day_minute() tok(TokenType::Colon) s:day_second() {?
       let second = u8::try_from(s.whole).map_err(|e| "sec")?;
+      if s.femptos % 1_000_000 != 0 { return Err("nanosecond") }
       let nanosecond = (s.femptos / 1_000_000) as u32;
       Time::from_hms_nano(h.try_into().map_err(|e| "hour")?, m.try_into().map_err(|e| "min")?, second, nanosecond).map_err(|e| "time")
     }
